@@ -1,6 +1,8 @@
 import Pyunicorn.Model.Proto
 import Pyunicorn.Model.Surrogates
 import Pyunicorn.Model.SurrogatesKernel
+import Pyunicorn.Model.SurrogatesKernelW
+import Pyunicorn.Model.SurrogatesObject
 /-! Line-protocol driver for C15 (surrogates).  Matrices: rows separated by `;`,
 an empty row is `-`, the empty matrix is `E`; lists of matrices separated by `|`
 (`E` alone = no matrix ... see `mats`). -/
@@ -45,8 +47,48 @@ def pickOf (draws : List Rat) : Nat → Nat → Nat := floorPick (fun c => draws
 
 def modeOf (s : String) : Mode := if s == "inplace" then .inplace else .copy
 
+def policyOf (re km : String) : Policy :=
+  ⟨if re == "always" then .always else .ifStale, km == "1"⟩
+
+/-- one call of a history: fields separated by `@` -/
+def opOf (s : String) : Option Op :=
+  match s.splitOn "@" with
+  | ["n", d] => some (.normalize (matOf rats d))
+  | ["e", e] => some (.setEmbedding (matsOf rats e))
+  | ["w", thr, md] => some (.twins ((rat? thr).getD 0) md.toNat!)
+  | ["t", dim, delay, thr, md, dr] =>
+      some (.twinSurr dim.toNat! delay.toNat! ((rat? thr).getD 0) md.toNat! (pickOf (rats dr)))
+  | _ => none
+
+def showRes : Res → String
+  | .unit => "u"
+  | .twins none => "raise"
+  | .twins (some tw) => if tw.isEmpty then "N" else join (tw.map (showMat showNats)) "|"
+  | .surr none => "raise"
+  | .surr (some m) => showMat showRats m
+
 def answer (toks : List String) : String :=
   match toks with
+  | ["twins_kw", bits, thr, md, embs, r0, nr0] =>
+      let (tw, w) := twinsKernelW bits.toNat! ((rat? thr).getD 0) md.toNat! (matsOf rats embs)
+        ⟨matOf bools r0, ints nr0⟩
+      join (tw.map (showMat showNats)) "|" ++ "#" ++ showMat showBools w.R ++ "#" ++ showInts w.nR
+  | ["twinsurr_kw", bits, dim, delay, thr, md, seed, dr, d] =>
+      showOpt (showMat showRats)
+        (twinSurrogatesKW bits.toNat! (matOf rats d) dim.toNat! delay.toNat! ((rat? thr).getD 0)
+          md.toNat! (pickOf (rats dr)) (garbageR seed.toNat!) (garbageN seed.toNat!))
+  | ["rp_twins_kw", md, r] => showMat showNats (rpTwinsKW md.toNat! (matOf bools r))
+  | ["twins_rkw", md, n, r, nr] =>
+      showMat showNats (twinsRKW md.toNat! n.toNat! (matOf bools r) (ints nr))
+  | ["rp_twinsurr", md, ns, dr, r, emb] =>
+      match rpTwinSurrogates md.toNat! ns.toNat! (matOf bools r) (matOf rats emb) (pickOf (rats dr)) with
+      | some out => if out.isEmpty then "N" else join (out.map (showMat showRats)) "|"
+      | none => "raise:IndexError"
+  | ["sobj", re, km, d, ops] =>
+      match (ops.splitOn "~").mapM opOf with
+      | none => "bad-request"
+      | some os => join ((SObj.run (policyOf re km) (SObj.fresh (matOf rats d)) os).1.map showRes) "~"
+  | ["wrap", bits, x] => toString (wrapInt bits.toNat! ((ints x).headD 0))
   | ["white", d, p] => showOpt (showMat showRats) (whiteNoise (matOf rats d) (matOf nats p))
   | ["aaft", d, s] => showOpt (showMat showRats) (aaft (matOf rats d) (matOf rats s))
   | ["refined", d, s0, ss] =>
